@@ -25,12 +25,13 @@ EXTENDS Integers, Sequences, FiniteSets, TLC, Json, IOUtils
 Trace == ndJsonDeserialize(IOEnv.TRACE_FILE)
 
 VARIABLES l, t, kind,
+          lostG,      \* injected-GER store: GERs whose removal was in a block that was reorged out later (finding F2b)
           applied,    \* surviving history: sequence of [num, evs]
           halted,     \* "no" | "yes" | "maybe" (inconsistent answer of a call that also had an injected fault)
           lastOp,     \* description of the last operation (for reporting)
           viol
 
-vars == <<l, t, kind, applied, halted, lastOp, viol>>
+vars == <<l, t, kind, lostG, applied, halted, lastOp, viol>>
 
 TreeH == 32
 P2(h) == IF h >= 20 THEN 1048576 ELSE 2 ^ h      \* fewer than 2^20 leaves in any trace; avoids 32-bit overflow
@@ -233,15 +234,52 @@ RecursToEarlierState(e) ==
   IN \E i \in (Len(before) + 1)..Len(after) : \E j \in 1..(i - 1) : after[j].f = after[i].f
 
 -----------------------------------------------------------------------------
+(* ---- injected-GER store (C04 C07): rows = GERs injected and not removed since, in the surviving history ---- *)
+GerRemovedIn(evs, x) == \E i \in DOMAIN evs : evs[i].t = "gerrm" /\ evs[i].x = x
+GerInserted(bs) == { x \in 1..64 : \E i \in DOMAIN bs : \E j \in DOMAIN bs[i].evs : bs[i].evs[j].t = "ger" /\ bs[i].evs[j].x = x }
+RECURSIVE GLiveEvs(_, _)
+GLiveEvs(evs, live) == IF evs = <<>> THEN live
+                       ELSE GLiveEvs(Tail(evs), IF Head(evs).t = "ger" THEN live \cup {Head(evs).x}
+                                                ELSE IF Head(evs).t = "gerrm" THEN live \ {Head(evs).x} ELSE live)
+RECURSIVE GLive(_, _)
+GLive(bs, live) == IF bs = <<>> THEN live ELSE GLive(Tail(bs), GLiveEvs(Head(bs).evs, live))
+GerIdx(x) == 10 * x + 3
+
+GerServingViolations(s) ==
+  LET live == GLive(applied, {})
+      vLast == IF s.last.c = "ok" /\ s.last.v = LastNum THEN <<>> ELSE <<V("LastProcessedBlock", [got |-> s.last, want |-> LastNum])>>
+      \* an answer must be an injected, not removed GER with index >= q; an answer must exist whenever such a GER exists
+      wrong == { i \in DOMAIN s.firsts : LET f == s.firsts[i] IN
+                   f.c = "ok" /\ ~(f.x \in live /\ f.idx = GerIdx(f.x) /\ f.idx >= f.q) }
+      missed == { i \in DOMAIN s.firsts : LET f == s.firsts[i] IN
+                   f.c # "ok" /\ \E x \in live : GerIdx(x) >= f.q }
+      missedAtoms == { x \in live : \E i \in missed : GerIdx(x) >= s.firsts[i].q /\
+                         ~\E y \in live : GerIdx(y) >= s.firsts[i].q /\ GerIdx(y) < GerIdx(x) }
+      vWrong == IF wrong = {} THEN <<>> ELSE LET i == CHOOSE j \in wrong : TRUE IN <<V("InjectedGERs", [got |-> s.firsts[i], live |-> live])>>
+      \* (known finding F2b: every missed GER is one whose removal sat in a reorged-out block)
+      vMissed == IF missed = {} THEN <<>>
+                 ELSE LET i == CHOOSE j \in missed : TRUE IN
+                      <<V("InjectedGERs", [missed |-> s.firsts[i], live |-> live,
+                                           kf |-> IF \A j \in missed : \A x \in live : GerIdx(x) >= s.firsts[j].q => x \in lostG
+                                                  THEN "F2b" ELSE "none"])>>
+      notSame == { i \in DOMAIN s.firsts : "same" \in DOMAIN s.firsts[i] /\ ~s.firsts[i].same }
+      \* disagreement with the twin that the lost GERs do not explain
+      vTwinQ == IF notSame = {} THEN <<>>
+                ELSE LET i == CHOOSE j \in notSame : TRUE IN
+                     <<V("TwinAgrees", [first |-> s.firsts[i], kf |-> IF (live \cap lostG) # {} THEN "F2b" ELSE "none"])>>
+      vTwin == IF "twin" \in DOMAIN s /\ s.twin.diff # <<>> THEN <<V("TwinAgrees", s.twin)>> ELSE <<>>
+  IN vLast \o vWrong \o vMissed \o vTwinQ \o vTwin
+
+-----------------------------------------------------------------------------
 Init ==
   /\ TLCSet(1, 0)
-  /\ l = 1 /\ t = 0 /\ kind = "bridge" /\ applied = <<>> /\ halted = "no" /\ lastOp = "init" /\ viol = <<>>
+  /\ l = 1 /\ t = 0 /\ kind = "bridge" /\ lostG = {} /\ applied = <<>> /\ halted = "no" /\ lastOp = "init" /\ viol = <<>>
 
 Ev(e) == l <= Len(Trace) /\ Trace[l].ev = e
 
 EvReset ==
   /\ Ev("reset")
-  /\ t' = Trace[l].t /\ kind' = Trace[l].kind /\ applied' = <<>> /\ halted' = "no" /\ lastOp' = "reset"
+  /\ t' = Trace[l].t /\ kind' = Trace[l].kind /\ lostG' = {} /\ applied' = <<>> /\ halted' = "no" /\ lastOp' = "reset"
   /\ l' = l + 1 /\ UNCHANGED viol
 
 (* a block is valid for the surviving history if its deposit counts continue it without a gap *)
@@ -250,6 +288,7 @@ ValidBlock(e) ==
   THEN LET n == Len(LeafRecs(applied))
            ls == LeafRecsOfEvs(e.evs, e.num, 0)
        IN \A i \in DOMAIN ls : ls[i].dc = n + i - 1
+  ELSE IF kind = "ger" THEN Len(e.evs) <= 1
   ELSE \A i \in DOMAIN e.evs : e.evs[i].t = "v2" =>
           (e.evs[i].good /\ (LeafRecs(applied) # <<>> \/ \E j \in 1..(i - 1) : e.evs[j].t = "leaf"))
 
@@ -271,24 +310,29 @@ EvProcess ==
                /\ viol' = viol \o (IF e.fault = "none" /\ halted = "no" /\ ValidBlock(e)
                                    THEN <<V("FaultFreeProcessFailed", [num |-> e.num, err |-> e.err,
                                             kf |-> IF kind = "l1info" /\ RecursToEarlierState(e) THEN "F5" ELSE "none"])>> ELSE <<>>)
-  /\ l' = l + 1 /\ UNCHANGED <<t, kind>>
+  /\ l' = l + 1 /\ UNCHANGED <<t, kind, lostG>>
 
 EvReorg ==
   /\ Ev("reorg")
   /\ LET e == Trace[l]
-         keep == SelectSeq(applied, LAMBDA b : b.num < e.from) IN
+         keep == SelectSeq(applied, LAMBDA b : b.num < e.from)
+         faulted == "fault" \in DOMAIN e /\ e.fault # "none" IN
      /\ lastOp' = [op |-> "reorg", from |-> e.from, res |-> e.res]
+     \* a reorg that failed changed nothing: neither the surviving history nor the halted condition (next snapshot checks)
      /\ applied' = IF e.res = "ok" THEN keep ELSE applied
      \* C14: cleared only by a reorg that actually removed processed blocks
      /\ halted' = IF e.res = "ok" /\ Len(keep) < Len(applied) THEN "no" ELSE halted
-     /\ viol' = viol \o (IF e.res # "ok" THEN <<V("ReorgFailed", e)>> ELSE <<>>)
+     /\ viol' = viol \o (IF e.res # "ok" /\ ~faulted THEN <<V("ReorgFailed", e)>> ELSE <<>>)
+     /\ lostG' = IF kind = "ger" /\ e.res = "ok"
+                 THEN lostG \cup { x \in GerInserted(keep) : \E i \in DOMAIN applied : applied[i].num >= e.from /\ GerRemovedIn(applied[i].evs, x) }
+                 ELSE lostG
   /\ l' = l + 1 /\ UNCHANGED <<t, kind>>
 
 EvRestart ==
   /\ Ev("restart")
   /\ lastOp' = [op |-> "restart"]
   /\ halted' = "no"          \* a new process has not detected anything yet
-  /\ l' = l + 1 /\ UNCHANGED <<t, kind, applied, viol>>
+  /\ l' = l + 1 /\ UNCHANGED <<t, kind, lostG, applied, viol>>
 
 EvSnap ==
   /\ Ev("snap")
@@ -296,14 +340,15 @@ EvSnap ==
          h == IF halted = "maybe" THEN (IF s.last.c = "incons" THEN "yes" ELSE "no") ELSE halted
      IN /\ halted' = h
         /\ viol' = viol \o (IF h = "yes" THEN RefusingViolations(s)
-                            ELSE IF kind = "l1info" THEN L1ServingViolations(s) ELSE ServingViolations(s))
-  /\ l' = l + 1 /\ UNCHANGED <<t, kind, applied, lastOp>>
+                            ELSE IF kind = "l1info" THEN L1ServingViolations(s)
+                            ELSE IF kind = "ger" THEN GerServingViolations(s) ELSE ServingViolations(s))
+  /\ l' = l + 1 /\ UNCHANGED <<t, kind, lostG, applied, lastOp>>
 
 Finish ==
   /\ l = Len(Trace) + 1
   /\ PrintT(<<"VIOL", ToJson(viol)>>)
   /\ PrintT(<<"DONE", ToJson([lines |-> Len(Trace), traces |-> t])>>)
-  /\ l' = l + 1 /\ UNCHANGED <<t, kind, applied, halted, lastOp, viol>>
+  /\ l' = l + 1 /\ UNCHANGED <<t, kind, lostG, applied, halted, lastOp, viol>>
 
 Next == EvReset \/ EvProcess \/ EvReorg \/ EvRestart \/ EvSnap \/ Finish
 Spec == Init /\ [][Next]_vars
